@@ -22,10 +22,10 @@ def make_files(wd):
     # a lead whose stored header length exceeds 32 bits (the header itself is absent): a pinned total length
     # must be compared in full width, not modulo 2^32
     b1 = files[1][1]; h1 = ref.parse_header(b1)
-    for big in (2**32, 2**33 + 2**32):
+    for big in (2**32, 2**33 + 2**32, 2**35, 2**42 + 2**35):
         lead = b1[:5] + ref.ci_enc(h1.hash_type) + ref.ci_enc(h1.header_length + big) + h1.header_digest
         buf = lead + b1[h1.lead_size:]
-        p = os.path.join(wd, "pinwrap%d.zck" % (big >> 32)); open(p, "wb").write(buf); files.append((p, buf, False))
+        p = os.path.join(wd, "pinwrap%d.zck" % (big >> 32)); open(p, "wb").write(buf); files.append((p, buf, False))      # names 1, 3, 8, 1032
     # candidates that end inside the lead (an empty file, an interrupted download, something that is not a zchunk file)
     # and exactly after it: pins are taken from the complete file, the lead itself is not there to be accepted
     for fi in (1, 2):
@@ -191,6 +191,17 @@ def run(tier):
         for pins in ([{"op": "settype", "type": hf.hash_type}, {"op": "setdigest", "str": hf.header_digest.hex().encode()}, {"op": "setlen", "len": hf.hdr_total}], [], [{"op": "setlen", "len": hf.hdr_total}]):
             for tail in (["validate_lead", "read_lead"], ["read_lead"], ["validate_lead", "validate_lead", "read_lead", "read_header"]):
                 cases.append(("cut%d-%d" % (fi, n), path, buf, sealed, pins + [{"op": o} for o in tail], refbuf)); n += 1
+    # every lead whose stored header length exceeds 32 bits: the true total must be accepted as a pin (by lead-only
+    # validation and by the lead read), and totals that differ from it by a multiple of 2^31 .. 2^42 must not
+    for fi, (path, buf, sealed, refbuf) in enumerate(files):
+        if "pinwrap" not in path:
+            continue
+        hf = ref.parse_header(buf); tl = hf.hdr_total
+        for pl in [tl] + [tl - d for d in (2**31, 2**32, 2**33, 2**35, 2**42) if tl - d > 0] + [tl % 2**32, tl % 2**35, tl + 2**35]:
+            for withtype in (False, True):
+                pins = ([{"op": "settype", "type": hf.hash_type}] if withtype else []) + [{"op": "setlen", "len": pl}]
+                for tail in (["validate_lead", "read_lead"], ["read_lead"]):
+                    cases.append(("wrap%d-%d" % (fi, n), path, buf, sealed, pins + [{"op": o} for o in tail], refbuf)); n += 1
     # the 256-value sweep at four position classes of the digest string
     for fi, (path, buf, sealed, _rb) in enumerate(files[:4]):
         h = ref.parse_header(buf); good = h.header_digest.hex().encode()
